@@ -44,6 +44,9 @@ def run(case):
     from . import c06, c07
 
     counters = {"evals": 1, "live_blocks_placed": 0, "live_buffer_views_checked": 0, "live_worlds": 1}
+    from ..common import KernelObserver
+
+    kobs = KernelObserver()
     if case["mode"] == "ddp":
         S = c06.make_setup({"seed": case["seed"]})
         S["T"] = min(S["T"], 3)
@@ -54,7 +57,8 @@ def run(case):
             S["comm"] = "FP32" if case["seed"][-1] % 4 == 0 else "DEFAULT"
         W, G, R = S["W"], S["G"], S["W"] // S["G"]
         world = ranksim.World(W, interleave_seed=1)
-        results = world.run(lambda rank, w: c06.rank_program(ds, torch, S, case["seed"], rank, w, with_twin=False))
+        with kobs:
+            results = world.run(lambda rank, w: c06.rank_program(ds, torch, S, case["seed"], rank, w, with_twin=False))
         group_of = lambda r: (r // G, 0)  # noqa
         grank = lambda r: r % G  # noqa
     else:
@@ -62,10 +66,15 @@ def run(case):
         S["T"] = min(S["T"], 3)
         W, G = S["R"] * S["S"], S["G"]
         world = ranksim.World(W, interleave_seed=1)
-        results = world.run(lambda rank, w: c07.rank_program(ds, torch, S, case["seed"], rank, w))
+        with kobs:
+            results = world.run(lambda rank, w: c07.rank_program(ds, torch, S, case["seed"], rank, w))
         group_of = lambda r: (results[r]["rrank"] // G, results[r]["srank"])  # noqa
         grank = lambda r: results[r]["rrank"] % G  # noqa
     desc = {"mode": case["mode"], "W": W, "G": G, "shapes": S["shapes"], "comm": S["comm"]}
+    if world.errors and kobs.nonfinite_from_finite and any(type(e[0]).__name__ == "PreconditionerValueError" for e in world.errors.values()):
+        # LAPACK returned NaN for a finite input and the optimizer raised as documented (C13): no placement to judge
+        counters["aborted_lapack_returned_nonfinite"] = 1
+        return {"counters": counters, "sigs": [], "sample": None}
     if world.errors:
         world.raise_errors()
     world.check_ledger(f"live {case['mode']}")
